@@ -1,4 +1,5 @@
 from contracts.h5graph import CONTRACTS as _H
+from contracts.getters import GettersDoNotWrite
 from contracts.tree import ALL_OF as _ALLOF, AddSaveConcatenated, OpenResetsRegistries, ParentSet
 from contracts.writer import FetchHandleStub, WriteAttributes
 from contracts.workspace_io import CloseContract
@@ -7,7 +8,7 @@ from contracts.concat import ConcatHistories as _CH
 from contracts.copy_wf import CopiesKeepFilesValid as _CKV
 from contracts.copying import CopyNative as _CN
 from contracts.surveys import EMMetadataSet as _EMS, TransmittersSet as _TS, ReceiversSet as _RS, IndependentSurveysFrame as _ISF
-CONTRACTS = list(_H) + [AddSaveConcatenated, OpenResetsRegistries, ParentSet, FetchHandleStub, WriteAttributes, CloseContract, ApiHistories] + list(_ALLOF) + [_CH] + [_EMS, _TS, _RS, _ISF, _CKV, _CN]
+CONTRACTS = list(_H) + [AddSaveConcatenated, OpenResetsRegistries, ParentSet, FetchHandleStub, WriteAttributes, CloseContract, ApiHistories] + list(_ALLOF) + [_CH] + [_EMS, _TS, _RS, _ISF, _CKV, _CN] + [GettersDoNotWrite]
 
 MANIFEST = {
     "category": "proof",
